@@ -82,7 +82,11 @@ pub trait CacheImplDetails {
         ensures
             final(self).inv() && final(self).now() == old(self).now() && final(self).cas_next() == old(self).cas_next(), // @ob C05 check_if_expired.frame
             r == !live(item_of(*record), old(self).now()), // @ob C05 check_if_expired.exact
-            r ==> final(self).cview() =~= old(self).cview().remove(key@), // @ob C05 check_if_expired.collects
+            // collecting never changes what any client can observe (an expired record is already invisible) ...
+            same_observations(old(self).cview(), final(self).cview(), old(self).now()), // @ob C05,C03 check_if_expired.collection_is_unobservable
+            // ... and when the record handed in is the stored one and it is expired, it is physically gone afterwards
+            r && old(self).cview().contains_key(key@) && same_item(item_of(*record), old(self).cview()[key@])
+                ==> final(self).cview() =~= old(self).cview().remove(key@), // @ob C05 check_if_expired.collects
             !r ==> final(self).cview() == old(self).cview(); // @ob C05,C01 check_if_expired.keeps_live
 }
 
@@ -148,6 +152,9 @@ impl CacheImplDetails for MemoryStore {
 //@endfn
 
 //@fn memory_store/store.rs | impl impl_details::CacheImplDetails for MemoryStore | check_if_expired | ret=r | mutself | safety=C10,C05
+//@closure 0 | |_key: &KeyType, stored: &Record| -> (b: bool)
+            requires stamped_ok(*stored),
+            ensures b == !live(item_of(*stored), current_time), // @ob C05,C03 check_if_expired.removes_only_expired
 //@endfn
 }
 
